@@ -43,8 +43,8 @@ AtStart(h) == IF LimitAtUse(h) # NoLimit THEN "set"
               ELSE IF h \in {"set-then-none", "set-decl-none"} THEN "none" ELSE "default"
 Uses(p) == CASE p = "act" -> {"actor-command-line", "actor-shell", "actor-file", "actor-source", "stdin-from-program"}
              [] p = "assert" -> {"run", "shell", "percent", "file-from-stdout", "transformer-run", "text-matcher-run",
-                                 "file-matcher-run", "exit-code-from", "stdout-from"}
-             [] OTHER -> {"run", "shell", "percent", "file-from-stdout", "transformer-run"}
+                                 "file-matcher-run", "exit-code-from", "stdout-from", "env-from-stdout"}
+             [] OTHER -> {"run", "shell", "percent", "file-from-stdout", "transformer-run", "env-from-stdout"}
 Dur(c) == IF c = "short" THEN ShortDur ELSE LongDur
 
 VARIABLES place, use, child, hist, envSet,     \* the case
